@@ -214,8 +214,12 @@ def run(ck, tier):
     for k, sc in enumerate(scs):
         groups[['0', '0,1', ''][k % 3]].append(sc)
     all_res = []
-    for cpus, g in groups.items():
-        res, hang = run_scenarios(g, cpus, sd, 'cap' + (cpus.replace(',', '_') or 'all'))
+    vplib.build_harness()
+    from concurrent.futures import ThreadPoolExecutor
+    with ThreadPoolExecutor(3) as ex:       # the three affinity groups are separate processes
+        futs = {cpus: ex.submit(run_scenarios, g, cpus, sd, 'cap' + (cpus.replace(',', '_') or 'all')) for cpus, g in groups.items()}
+    for cpus, fu in futs.items():
+        res, hang = fu.result()
         all_res += res
         if hang:
             last = res[-1]
@@ -324,9 +328,16 @@ def tool_input_part(ck, sd, rs, rz, tier):
             expect[tok] = {'tool': 'py' if py else 'sc:bash', 'stdin': want if py else 'set -eo pipefail\n' + want + '\n', 'vec': v}
         scs.append({'id': sid, 'files': [{'default_shell': '', 'jobs': [{'default_shell': '', 'runs_on': '', 'steps': steps}]}],
                     'plan': plan, 'nostart': '', 'hook_delay_us': 0, 'single': True})
-    res, hang = run_scenarios(scs, '', sd, 'toolinput')
-    if hang:
-        raise Inconclusive('tool-input scenarios hung')
+    from concurrent.futures import ThreadPoolExecutor
+    nchunk = 6
+    chunks = [scs[i::nchunk] for i in range(nchunk)]
+    with ThreadPoolExecutor(nchunk) as ex:
+        outs = list(ex.map(lambda a: run_scenarios(a[1], '', sd, 'toolinput%d' % a[0]), enumerate(chunks)))
+    res = []
+    for r_, hang in outs:
+        res += r_
+        if hang:
+            raise Inconclusive('tool-input scenarios hung')
     seen = {}
     for r_ in res:
         if r_.get('panic'):
